@@ -102,6 +102,7 @@ let run_op = (function
             | 'd' -> let i = int_of_string (rest op) in if i >= n then [] else [EvClose (nat_of_int i)]
             | 's' -> [EvSweep]
             | 'i' -> inbound_events n specs (rest op)
+            | 'I' -> []      (* the kind of INPUT the group has: no event of the consumers' machine *)
             | _ -> failwith "bad op") (ops_of sched)) in
         let (st, obs) = run evs st0 in
         let codes = Array.make n "" in
@@ -143,6 +144,7 @@ let register () =
               if i >= n then st else fst (run [EvClose (nat_of_int i)] st)
             | 's' -> fst (run [EvSweep] st)
             | 'i' -> fst (run (inbound_events n (Stdlib.List.map (fun s -> (s.s_kind, 0)) st) (rest op)) st)
+            | 'I' -> st
             | _ -> failwith "bad op") st0 (ops_of sched) in
         report (Array.to_list codes) st
       | _ -> "bad-args")
